@@ -784,11 +784,12 @@ impl AppState {
     pub async fn remove_db_api_key(&self, name: &str) -> Result<bool, ApiError> {
         let _guard = self.inner.lifecycle.lock().await;
         self.require_known_db(name).await?;
-        if self.db_api_key(name).is_none() {
-            return Ok(false);
-        }
+        let existed = self.db_api_key(name).is_some();
+        // Persisted even when memory holds no binding: an earlier change
+        // whose write reported a failure may still have reached storage, and
+        // an acknowledged "no key bound" must hold after a restart.
         self.store_api_key(name, None).await?;
-        Ok(true)
+        Ok(existed)
     }
 
     /// Validates a binding request before it can have any effect.
